@@ -31,9 +31,9 @@ def check(sc):
 
 def clauses():
     return [
-        Clause("toy_binary", lambda: _with_recording(scen.toy_binary_scenario(cap=400, allow_elastic=True)), check, quick=240, thorough=4000, shrink=False,
+        Clause("toy_binary", lambda: _with_recording(scen.toy_binary_scenario(cap=400, allow_elastic=True, allow_param_calls=True)), check, quick=240, thorough=4000, shrink=False,
                rule="generator: (1 case in 4 with a change of an interfacial or the grain-boundary energy, reset() and a second run of the same model, judged against the scenario with the new energies; 1 multi-call case in 5 with the molar volume of a precipitate phase set again between solve calls) C01 toy binary scenarios with PSD recording on a random subset of phases; per accepted step: density / mean radius / volume fraction vs moments of the snapshot distribution, recorded PSD row vs the same moments, number-density step bound; non-trivial: populated on >= 10 steps"),
-        Clause("toy_multi", lambda: _with_recording(scen.toy_multi_scenario(cap=250, allow_shapes=True)), check, quick=120, thorough=2000, shrink=False,
+        Clause("toy_multi", lambda: _with_recording(scen.toy_multi_scenario(cap=250, allow_shapes=True, allow_param_calls=True)), check, quick=120, thorough=2000, shrink=False,
                rule="generator: toy ternary scenarios, same oracles"),
         Clause("real_db", lambda: _with_recording(scen.real_scenario(cap=100)), check, quick=24, thorough=300, shrink=False,
                rule="generator: Al-Zr and Ni-Al-Cr scenarios on the shipped databases (see C01), PSD recording on a random subset; same oracles"),
